@@ -12,7 +12,7 @@ RULE = ("one evaluation = one (frame list, partition of the concatenated stream)
         "frame (header or payload) / for outgoing: size class boundary; distinct by (frame sizes, content mode, cuts)")
 ASSUMPTIONS = ["frames are non-empty (the quantifier excludes empty frames)",
                "the layer is driven single-threaded, as the network thread does"]
-REQUIRED = ["recv_cases", "send_cases", "cuts_inside_header", "cuts_inside_payload", "oversize_refused"]
+REQUIRED = ["recv_cases", "send_cases", "cuts_inside_header", "cuts_inside_payload", "oversize_refused", "reconnect_cases", "reconnect_ok", "reconnect_cut:header", "reconnect_cut:payload"]
 EXHAUSTIVE = None
 
 
@@ -126,6 +126,64 @@ def judge_send(acc, size, enabled, r=None):
         acc.count("send_ok_enabled" if enabled else "send_ok_passthrough")
 
 
+def judge_reconnect(acc, r, case_id):
+    """A connection is cut anywhere in its stream (inside a header, inside a payload, on a boundary); the network layer's
+    'disconnected' announcement reaches the framing layer the way the real network layer makes it (a detached event emitted
+    by the layer directly below: handled at once by the direct neighbour, deferred for everyone above); the next
+    connection's stream starts right afterwards, before the stack's loop has run. Exactly the complete frames of the first
+    stream up to the cut and all frames of the second must come out."""
+    import queue
+    from yowsup.layers import YowLayerEvent
+    from yowsup.layers.network import YowNetworkLayer
+    from yowsup.stacks import YowStack
+    n1, n2 = r.randint(1, 4), r.randint(1, 4)
+    f1 = content(r.choice([0, 1]), [r.choice([1, 2, 3, 5, 40, 300]) for _ in range(n1)])
+    f2 = content(r.choice([0, 1]), [r.choice([1, 2, 3, 5, 40, 300]) for _ in range(n2)])
+    s1, s2 = stream_of(f1), stream_of(f2)
+    cut = r.randint(0, len(s1))
+    pump_between = r.random() < 0.3
+    st, b, t, S = _mk()
+    w = {"dir": "reconnect", "sizes1": [len(f) for f in f1], "sizes2": [len(f) for f in f2], "cut": cut, "pump_between": pump_between, "case": case_id}
+    acc.count("reconnect_cases")
+    fb, hdr = boundaries(f1)
+    acc.count("reconnect_cut:" + ("boundary" if cut in fb or cut == 0 else "header" if cut in hdr else "payload"))
+    acc.case(["rc", w["sizes1"], w["sizes2"], cut, pump_between], nontrivial=cut not in fb and cut != 0)
+
+    def pump():
+        q = YowStack._YowStack__detachedQueue
+        while True:
+            try:
+                q.get(False)()
+            except queue.Empty:
+                return
+    try:
+        for ch in gen.cut(s1[:cut], gen.random_cuts(r, cut, r.choice([0, 1, 3]))) if cut else []:
+            b.receive(ch)
+        b.emitEvent(YowLayerEvent(YowNetworkLayer.EVENT_STATE_DISCONNECTED, reason="cut", detached=True))
+        if pump_between:
+            pump()
+        for ch in gen.cut(s2, gen.random_cuts(r, len(s2), r.choice([0, 1, 3]))):
+            b.receive(ch)
+        pump()
+    except Exception as e:  # noqa
+        acc.violation("reconnect:exception:%s" % type(e).__name__, "segments layer raised %r around a reconnect" % (e,), w)
+        return
+    # complete frames of the first stream before the cut
+    want, pos = [], 0
+    for f in f1:
+        pos += 3 + len(f)
+        if pos <= cut:
+            want.append(f)
+    want += f2
+    got = [bytes(x) for x in t.received]
+    if got != want:
+        acc.violation("reconnect:frames-differ:%s" % ("pumped" if pump_between else "before-loop-turn"),
+                      "after a connection cut at byte %d of its stream the frames handed upward differ from the frames sent (%d vs %d frames, sizes %s)"
+                      % (cut, len(got), len(want), [len(g) for g in got][:10]), w)
+    else:
+        acc.count("reconnect_ok")
+
+
 def exhaustive_family(acc, sizes, modes=(0, 1)):
     L = sum(3 + n for n in sizes)
     for mode in modes:
@@ -168,6 +226,7 @@ def shards(tier, seed, nworkers):
     for i in range(nsh):
         specs.append({"kind": "random", "shard": i, "n": nrand // nsh, "big": i == 0})
     specs.append({"kind": "send", "n": 60 if tier == "quick" else 600})
+    specs.append({"kind": "reconnect", "n": 600 if tier == "quick" else 40000})
     return specs
 
 
@@ -222,6 +281,10 @@ def run(spec, acc):
             sizes, cuts = random_case(acc, r, "%d/%d" % (spec["shard"], i), big=big)
             if i < 3:
                 acc.sample({"frame_sizes": sizes[:10], "cuts": list(cuts[:20]), "n_cuts": len(cuts)})
+    elif spec["kind"] == "reconnect":
+        for i in range(spec["n"]):
+            judge_reconnect(acc, gen.rng(seed, ID, "reconnect/%d" % i), i)
+        acc.sample({"reconnect": "stream cut at a random byte, detached 'disconnected' from the layer below, next stream before the loop turns"})
     elif spec["kind"] == "send":
         fixed = [1, 2, 255, 256, 65535, 65536, (1 << 24) - 1, 1 << 24, (1 << 24) + 1]
         for n in fixed:
